@@ -21,6 +21,7 @@ structure SInv (p : Plan) (s : St) : Prop where
   err_of_failed : s.failed ≠ [] → s.err.isSome
   pending_coll : ∀ i ∈ s.pending, i ∈ s.collected
   yielded_coll : ∀ i ∈ s.yielded, i ∈ s.collected
+  coll_nodup : s.collected.Nodup
 
 theorem sinv_init (p : Plan) : SInv p init := by
   constructor <;> simp [init]
@@ -124,6 +125,13 @@ theorem sinv_step {p : Plan} (hd : DisjointOuts p) {s : St} (hi : SInv p s) (e :
                   · exact Or.inl rfl
                 · exact Or.inr (hi.pending_coll j hj)
               · intro j hj; simp; exact Or.inr (hi.yielded_coll j hj)
+              · have hnc : i ∉ s.collected := by
+                  intro hc
+                  have hall := hi.coll_outs i hc st hst
+                  have : isStepDone st.outs s.finished = true := by
+                    simp [isStepDone]; exact hall
+                  exact hnd this
+                simp [hnc, hi.coll_nodup]
             · exact hi
           · -- not running: maybe start
             rename_i hcr
@@ -161,6 +169,7 @@ theorem sinv_step {p : Plan} (hd : DisjointOuts p) {s : St} (hi : SInv p s) (e :
               · exact hi.err_of_failed
               · exact hi.pending_coll
               · exact hi.yielded_coll
+              · exact hi.coll_nodup
             · exact hi
   | begin i =>
     simp only [stepEv]
@@ -186,6 +195,7 @@ theorem sinv_step {p : Plan} (hd : DisjointOuts p) {s : St} (hi : SInv p s) (e :
       · exact hi.err_of_failed
       · exact hi.pending_coll
       · exact hi.yielded_coll
+      · exact hi.coll_nodup
     · exact hi
   | finish i =>
     simp only [stepEv]
@@ -213,6 +223,7 @@ theorem sinv_step {p : Plan} (hd : DisjointOuts p) {s : St} (hi : SInv p s) (e :
       · exact hi.err_of_failed
       · exact hi.pending_coll
       · exact hi.yielded_coll
+      · exact hi.coll_nodup
     · exact hi
   | fail i =>
     simp only [stepEv]
@@ -240,12 +251,13 @@ theorem sinv_step {p : Plan} (hd : DisjointOuts p) {s : St} (hi : SInv p s) (e :
       · intro _; simp
       · exact hi.pending_coll
       · exact hi.yielded_coll
+      · exact hi.coll_nodup
     · exact hi
   | loopHead =>
     simp only [stepEv]
     split
     · exact hi
-    · have base : SInv p { s with yielded := s.yielded ++ s.pending, pending := [] } := by
+    · have base : SInv p { s with yielded := s.yielded ++ s.pending.reverse, pending := [] } := by
         constructor
         · exact hi.started_nodup
         · exact hi.begun_nodup
@@ -266,6 +278,7 @@ theorem sinv_step {p : Plan} (hd : DisjointOuts p) {s : St} (hi : SInv p s) (e :
         · intro j hj; simp at hj; rcases hj with hj | hj
           · exact hi.yielded_coll j hj
           · exact hi.pending_coll j hj
+        · exact hi.coll_nodup
       split
       · exact { base with }
       · split
